@@ -17,6 +17,7 @@ import (
 	"k8s.io/client-go/util/workqueue"
 	"sigs.k8s.io/controller-runtime/pkg/client"
 	"sigs.k8s.io/controller-runtime/pkg/client/fake"
+	"sigs.k8s.io/controller-runtime/pkg/client/interceptor"
 	"sigs.k8s.io/controller-runtime/pkg/event"
 	"sigs.k8s.io/controller-runtime/pkg/reconcile"
 
@@ -38,7 +39,15 @@ type c20xQueue struct {
 	items []reconcile.Request
 }
 
-func (q *c20xQueue) Add(r reconcile.Request) { q.items = append(q.items, r) }
+// Add: like the real work queue, a request that is already queued is not queued twice.
+func (q *c20xQueue) Add(r reconcile.Request) {
+	for _, x := range q.items {
+		if x == r {
+			return
+		}
+	}
+	q.items = append(q.items, r)
+}
 
 func c20xCopy(v interface{}) interface{} {
 	switch x := v.(type) {
@@ -289,6 +298,39 @@ type c20xWorld struct {
 	scheme   *runtime.Scheme
 	cmObj    *corev1.ConfigMap // the object last written to the API (nil: does not exist)
 	apiError string
+	failArmed, failUsed bool // injected failure of the next NodeSLO write (Create/Update/Delete)
+}
+
+// c20xInject fails the next write of a NodeSLO object when armed.
+func (w *c20xWorld) c20xInject(obj client.Object) error {
+	if _, ok := obj.(*slov1alpha1.NodeSLO); ok && w.failArmed {
+		w.failArmed, w.failUsed = false, true
+		return fmt.Errorf("injected API failure")
+	}
+	return nil
+}
+
+func (w *c20xWorld) newClient() client.Client {
+	return fake.NewClientBuilder().WithScheme(w.scheme).WithInterceptorFuncs(interceptor.Funcs{
+		Create: func(ctx context.Context, cl client.WithWatch, obj client.Object, opts ...client.CreateOption) error {
+			if err := w.c20xInject(obj); err != nil {
+				return err
+			}
+			return cl.Create(ctx, obj, opts...)
+		},
+		Update: func(ctx context.Context, cl client.WithWatch, obj client.Object, opts ...client.UpdateOption) error {
+			if err := w.c20xInject(obj); err != nil {
+				return err
+			}
+			return cl.Update(ctx, obj, opts...)
+		},
+		Delete: func(ctx context.Context, cl client.WithWatch, obj client.Object, opts ...client.DeleteOption) error {
+			if err := w.c20xInject(obj); err != nil {
+				return err
+			}
+			return cl.Delete(ctx, obj, opts...)
+		},
+	}).Build()
 }
 
 func (w *c20xWorld) start() {
@@ -387,7 +429,8 @@ func TestVerifC20Hist(t *testing.T) {
 	h.Close("history of 3-12 steps on one fake API + real handlers + real Reconcile: slo-controller ConfigMap create / update (nothing, unrelated key only, " +
 		"remove key(s) only, add a key only, edit that unsets a layer/entry/field or changes a value, break a section, regenerate sections) / delete, foreign ConfigMap events, " +
 		"node add / relabel (random or one label flipped) / annotation-only update / delete, controller restart (ConfigMap event before or after the node list); " +
-		"after each step every enqueued request is reconciled and all NodeSLO specs are read back; non-trivial = some step where a field delivered to a node goes from set to unset; distinct by op lines")
+		"after each step every enqueued request is reconciled and all NodeSLO specs are read back; in 1/3 of the cases a burst of 2-4 steps only ENQUEUES " +
+		"(requests reconciled one by one in random order in between and afterwards, some with an injected failure of the NodeSLO write, some spurious; oracle at quiescence); non-trivial = some step where a field delivered to a node goes from set to unset; distinct by op lines")
 }
 
 // ---------------------------------------------------------------- one case: world + oracle memory + step methods
@@ -434,6 +477,7 @@ type c20xCase struct {
 	prevExp  map[int][]c20Layer
 	stepNo   int
 	sawUnset bool
+	hold     bool // events only enqueue (Model/C20HistQ.lean); requests are reconciled one by one by reconcileOne
 }
 
 func (e *c20xEnv) newCase(h *vHarness) *c20xCase {
@@ -444,7 +488,8 @@ func (e *c20xEnv) newCase(h *vHarness) *c20xCase {
 	}
 	c := &c20xCase{env: e, h: h, ctx: context.TODO(), failed: map[string]bool{}, cur: make([]c20SecRaw, 5), extra: map[string]string{},
 		good: make([]c20Good, 5), goodAlt: make([]c20Good, 5), textIDs: map[string]int{}, nodes: map[int]map[int]int{}, prevExp: map[int][]c20Layer{}}
-	c.w = &c20xWorld{scheme: e.scheme, cl: fake.NewClientBuilder().WithScheme(e.scheme).Build()}
+	c.w = &c20xWorld{scheme: e.scheme}
+	c.w.cl = c.w.newClient()
 	c.w.start()
 	for s := range c.good {
 		c.good[s], c.goodAlt[s] = c20Good{absent: true}, c20Good{absent: true}
@@ -666,7 +711,19 @@ func (c *c20xCase) stepRestart(cmFirst bool) {
 		}
 		c.drain()
 	}
-	if cmFirst {
+	if c.hold { // the initial events only enqueue; the ConfigMap's Create event comes first
+		if w.cmObj != nil {
+			w.handler.Create(c.ctx, event.TypedCreateEvent[client.Object]{Object: w.cmObj.DeepCopy()}, w.q)
+		}
+		for _, nm := range c.names() {
+			w.nodeH.Create(c.ctx, event.TypedCreateEvent[client.Object]{Object: c20xNodeObj(nm, c.nodes[nm], false)}, w.q)
+		}
+		sl := &slov1alpha1.NodeSLOList{}
+		w.must(w.cl.List(c.ctx, sl), "list nodeslo")
+		for i := range sl.Items {
+			w.q.Add(reconcile.Request{NamespacedName: types.NamespacedName{Name: sl.Items[i].Name}})
+		}
+	} else if cmFirst {
 		cmEv()
 		listEv()
 	} else {
@@ -688,7 +745,9 @@ func (c *c20xCase) drain() {
 // evaluate the layering statement from scratch on the current texts + labels for every field of every node.
 func (c *c20xCase) observe(kind string) {
 	h, w := c.h, c.w
-	c.drain()
+	if !c.hold {
+		c.drain()
+	}
 	stp := c.stepNo
 	c.stepNo++
 	h.Op("hobs")
@@ -744,7 +803,10 @@ func (c *c20xCase) observe(kind string) {
 				}
 			}
 		}
-		// ---- oracle
+		// ---- oracle (at quiescence only: while requests are pending a NodeSLO may legitimately be stale)
+		if c.hold {
+			continue
+		}
 		if !have {
 			c.fail("C20:hist:nodeslo-missing", "node n%d exists and was reconciled but has no NodeSLO (step %d %s)", nm, stp, kind)
 			continue
@@ -794,6 +856,78 @@ func (c *c20xCase) observe(kind string) {
 	}
 }
 
+// ---- hold mode: events only enqueue; queued requests are reconciled one at a time, in any order
+
+func (c *c20xCase) enterHold() {
+	c.h.Op("hmode 1")
+	c.h.Tag("hhold:enter")
+	c.hold = true
+}
+
+// reconcileOne takes the k-th queued request; with `inject` the NodeSLO write of this reconcile (if it makes one) fails.
+func (c *c20xCase) reconcileOne(k int, inject bool) {
+	w := c.w
+	req := w.q.items[k]
+	w.q.items = append(append([]reconcile.Request{}, w.q.items[:k]...), w.q.items[k+1:]...)
+	nm, err := strconv.Atoi(strings.TrimPrefix(req.Name, "n"))
+	if err != nil {
+		nm = 999
+	}
+	w.failArmed, w.failUsed = inject, false
+	var res reconcile.Result
+	var rerr error
+	panicked := c.h.Guard(func() { res, rerr = w.rec.Reconcile(c.ctx, req) })
+	w.failArmed = false
+	if w.failUsed {
+		// the write failed: nothing may be stored, and the controller must see the request again (error or Requeue)
+		c.h.Op("hrecfail %d", nm)
+		c.h.Tag("hhold:reconcile-write-fails")
+		if rerr != nil || res.Requeue || res.RequeueAfter > 0 {
+			w.q.Add(req)
+		} else {
+			c.h.Tag("hhold:failed-write-not-requeued")
+		}
+	} else {
+		c.h.Op("hrec %d", nm)
+		c.h.Tag("hhold:reconcile-one")
+		w.must(rerr, "reconcile "+req.Name)
+	}
+	if panicked {
+		c.h.Obs("panic")
+		c.fail("C20:panic", "Reconcile panicked")
+	}
+}
+
+// reconcileSpurious: a request for a name that need not be queued (resync, the NodeSLO's own event).
+func (c *c20xCase) reconcileSpurious(nm int) {
+	w := c.w
+	req := reconcile.Request{NamespacedName: types.NamespacedName{Name: c20xNodeName(nm)}}
+	for k, x := range w.q.items {
+		if x == req {
+			c.reconcileOne(k, false)
+			return
+		}
+	}
+	c.h.Op("hrec %d", nm)
+	c.h.Tag("hhold:reconcile-spurious")
+	if c.h.Guard(func() {
+		_, err := w.rec.Reconcile(c.ctx, req)
+		w.must(err, "reconcile "+req.Name)
+	}) {
+		c.h.Obs("panic")
+		c.fail("C20:panic", "Reconcile panicked")
+	}
+}
+
+func (c *c20xCase) leaveHold(r *vRand) {
+	for len(c.w.q.items) > 0 {
+		c.reconcileOne(r.Intn(len(c.w.q.items)), false)
+	}
+	c.h.Op("hmode 0")
+	c.hold = false
+	c.observe("release")
+}
+
 // ---------------------------------------------------------------- random histories
 
 func c20xRandomHistory(c *c20xCase, r *vRand) {
@@ -816,7 +950,23 @@ func c20xRandomHistory(c *c20xCase, r *vRand) {
 			forced = []string{"cm", "node", "node"}
 		}
 	}
+	holdAt, holdLen := -1, 0
+	if r.Chance(1, 3) { // a burst of changes whose requests stay queued, reconciled in random order in between and after
+		holdAt, holdLen = r.Range(1, nSteps-1), r.Range(2, 4)
+	}
 	for stp := 0; stp < nSteps; stp++ {
+		if stp == holdAt {
+			c.enterHold()
+		}
+		if c.hold {
+			if stp >= holdAt+holdLen {
+				c.leaveHold(r)
+			} else if len(w.q.items) > 0 && r.Chance(1, 2) {
+				c.reconcileOne(r.Intn(len(w.q.items)), r.Bool())
+			} else if r.Chance(1, 8) {
+				c.reconcileSpurious(r.Range(1, 3))
+			}
+		}
 		kind := ""
 		if stp < len(forced) {
 			kind = forced[stp]
@@ -962,8 +1112,11 @@ func c20xRandomHistory(c *c20xCase, r *vRand) {
 		case "nodedel":
 			c.stepNodeDelete(names[r.Intn(len(names))])
 		case "restart":
-			c.stepRestart(r.Bool())
+			c.stepRestart(c.hold || r.Bool())
 		}
+	}
+	if c.hold {
+		c.leaveHold(r)
 	}
 }
 
